@@ -1,5 +1,111 @@
-(* C06 - property theorems only *)
-From VT Require Import Check.C06Check.
-Theorem C06_placeholder : forall h : hcase, c06_eval h = c06_eval h.
-Proof. reflexivity. Qed.
-Print Assumptions C06_placeholder.
+(* C06 - property theorems only (proofs in Manager/AckProofs.v) *)
+From VT Require Import Manager.Manager Manager.ManagerProofs Check.C06Check Manager.AckProofs.
+From Coq Require Import Sorted.
+Open Scope N_scope.
+
+(* AckInv m = the callback table has distinct client keys and every client slot has a live
+   counter n >= 1, pairwise distinct entry ids, all in [1, n) *)
+Theorem C06_inv : forall ops, AckInv (fold_left mstep ops mgr_init).
+Proof. exact C06_inv_thm. Qed.
+Print Assumptions C06_inv.
+
+Theorem C06_inv_generate_ack_id : forall m sid cb, AckInv m -> AckInv (fst (generate_ack_id m sid cb)).
+Proof. exact generate_ack_id_inv. Qed.
+Print Assumptions C06_inv_generate_ack_id.
+
+Theorem C06_inv_trigger_callback : forall m sid id, AckInv m -> AckInv (fst (trigger_callback m sid id)).
+Proof. exact trigger_callback_inv. Qed.
+Print Assumptions C06_inv_trigger_callback.
+
+Theorem C06_inv_disconnect : forall m sid ns, AckInv m -> AckInv (mgr_disconnect m sid ns).
+Proof. exact mgr_disconnect_inv. Qed.
+Print Assumptions C06_inv_disconnect.
+
+Theorem C06_inv_step : forall m o, AckInv m -> AckInv (mstep m o).
+Proof. exact mstep_inv_ack. Qed.
+Print Assumptions C06_inv_step.
+
+(* the id returned is new for that client, registers exactly the callback, and nothing else changes *)
+Theorem C06_unique : forall m sid cb m' r,
+  AckInv m -> generate_ack_id m sid cb = (m', r) ->
+  exists id, r = Ok id /\ id = next_id m sid /\ 1 <= id /\
+    outstanding m (Some sid) (Some (Z.of_N id)) = None /\
+    outstanding m' (Some sid) (Some (Z.of_N id)) = Some cb /\
+    next_id m' sid = id + 1 /\
+    (forall i, i <> Z.of_N id -> outstanding m' (Some sid) (Some i) = outstanding m (Some sid) (Some i)) /\
+    (forall sid', sid' <> sid -> aget str_eqb (callbacks m') sid' = aget str_eqb (callbacks m) sid') /\
+    rooms m' = rooms m /\ pending m' = pending m.
+Proof. exact C06_unique_thm. Qed.
+Print Assumptions C06_unique.
+
+(* along any history that does not disconnect the client, its ids are strictly increasing *)
+Theorem C06_unique_history : forall sid ops m,
+  AckInv m -> (forall ns, ~ In (MDisconnect sid ns) ops) ->
+  StronglySorted N.lt (gen_ids sid m ops) /\ Forall (fun id => next_id m sid <= id) (gen_ids sid m ops).
+Proof. exact C06_unique_history_thm. Qed.
+Print Assumptions C06_unique_history.
+
+Theorem C06_unique_nodup : forall sid ops m,
+  AckInv m -> (forall ns, ~ In (MDisconnect sid ns) ops) -> NoDup (gen_ids sid m ops).
+Proof. exact C06_unique_nodup_thm. Qed.
+Print Assumptions C06_unique_nodup.
+
+Theorem C06_fires_iff : forall m osid oid,
+  snd (trigger_callback m osid oid) =
+  match outstanding m osid oid with Some cb => CbRef cb | None => CbNone end.
+Proof. exact C06_fires_iff_thm. Qed.
+Print Assumptions C06_fires_iff.
+
+Theorem C06_at_most_once : forall m sid id m' cb,
+  AckInv m -> trigger_callback m (Some sid) (Some id) = (m', CbRef cb) ->
+  outstanding m' (Some sid) (Some id) = None /\
+  trigger_callback m' (Some sid) (Some id) = (m', CbNone).
+Proof. exact C06_at_most_once_thm. Qed.
+Print Assumptions C06_at_most_once.
+
+Theorem C06_right_client : forall m sid id m' cb,
+  AckInv m -> trigger_callback m (Some sid) (Some id) = (m', CbRef cb) ->
+  outstanding m (Some sid) (Some id) = Some cb /\
+  rooms m' = rooms m /\ pending m' = pending m /\
+  (forall sid', sid' <> sid -> aget str_eqb (callbacks m') sid' = aget str_eqb (callbacks m) sid') /\
+  (forall sid' oid, sid' <> sid -> outstanding m' (Some sid') oid = outstanding m (Some sid') oid) /\
+  (forall id', id' <> id -> outstanding m' (Some sid) (Some id') = outstanding m (Some sid) (Some id')) /\
+  next_id m' sid = next_id m sid.
+Proof. exact C06_right_client_thm. Qed.
+Print Assumptions C06_right_client.
+
+Theorem C06_unknown_ignored : forall m osid oid,
+  outstanding m osid oid = None -> trigger_callback m osid oid = (m, CbNone).
+Proof. exact C06_unknown_ignored_thm. Qed.
+Print Assumptions C06_unknown_ignored.
+
+Theorem C06_not_outstanding_unknown_sid : forall m sid oid,
+  aget str_eqb (callbacks m) sid = None -> outstanding m (Some sid) oid = None.
+Proof. exact not_outstanding_unknown_sid. Qed.
+Print Assumptions C06_not_outstanding_unknown_sid.
+
+Theorem C06_not_outstanding_nonpositive : forall m osid i,
+  (i <= 0)%Z -> outstanding m osid (Some i) = None.
+Proof. exact not_outstanding_nonpositive. Qed.
+Print Assumptions C06_not_outstanding_nonpositive.
+
+Theorem C06_not_outstanding_never_issued : forall m sid i,
+  AckInv m -> (Z.of_N (next_id m sid) <= i)%Z -> outstanding m (Some sid) (Some i) = None.
+Proof. exact not_outstanding_never_issued. Qed.
+Print Assumptions C06_not_outstanding_never_issued.
+
+Theorem C06_dropped_on_disconnect : forall m sid ns oid,
+  AckInv m -> ns_rooms m ns <> None ->
+  let m' := mgr_disconnect m sid ns in
+  aget str_eqb (callbacks m') sid = None /\ trigger_callback m' (Some sid) oid = (m', CbNone).
+Proof. exact C06_dropped_on_disconnect_thm. Qed.
+Print Assumptions C06_dropped_on_disconnect.
+
+Theorem C06_call_result :
+  call_result [] = PNone /\ (forall x, call_result [x] = x) /\
+  (forall x y l, call_result (x :: y :: l) = PTuple (x :: y :: l)) /\
+  (forall args, call_result args =
+     if (1 <? List.length args)%nat then PTuple args
+     else if (List.length args =? 1)%nat then hd PNone args else PNone).
+Proof. exact C06_call_result_thm. Qed.
+Print Assumptions C06_call_result.
